@@ -6,8 +6,11 @@ import z3 as _z3
 D = 'drivers/instantiate.cpp'
 ENV = dict(FIRENV)
 
+import z3 as _z3e
+EPSC = _z3e.Real('EPS')
 fn('dsplib::eps', 'lib/types.cpp', sig='dsplib::real_t ()', key='eps()', serves=['C12'], trusted=True, pure=True,
-   ensures=[('positive', 'result > 0')], notes='floating-point relative accuracy: a positive constant')
+   value='EPSC', extra_env={'EPSC': EPSC}, ensures=[('positive', 'result > 0')],
+   notes='floating-point relative accuracy: the positive constant EPS')
 
 LMS_OK = 'And(_len >= 2, _u.len == _len - 1, _w.len == _len)'
 
